@@ -270,6 +270,23 @@ def _river(env, cfg):
         env.claim('one_hot_over_labels_seen_so_far',
                   set(got.keys()) == set(expected_seen) and all(got[l] == (1.0 if l == lab else 0.0) for l in expected_seen),
                   detail=f"label {lab!r} after {expected_seen}")
+    # list input with string labels: row i is one-hot over the labels seen up to and including row i,
+    # i.e. exactly what one-at-a-time calls give (the model computes rows independently)
+    for labels in (['cat', 'dog'], ['cat', 'dog', 'cat', 'emu'], ['dog', 'dog', 'cat']):
+        wb, ws = RiverWrapper(model), RiverWrapper(model)
+        outs.extend(labels)
+        batch = guarded(env, 'river_label_list', wb, [x for _ in labels])
+        outs.extend(labels)
+        single = [guarded(env, 'river_label_single', ws, x) for _ in labels]
+        env.claim('label_batch_equals_one_at_a_time', isinstance(batch, list) and len(batch) == len(labels) and
+                  all(b == s and list(b.keys()).sort() == list(s.keys()).sort() for b, s in zip(batch, single)),
+                  detail=f"labels {labels}: batch {batch} vs single {single}")
+        seen = []
+        for lab, b in zip(labels, batch):
+            if lab not in seen:
+                seen.append(lab)
+            env.claim('label_batch_row_one_hot_over_labels_seen_so_far', set(b.keys()) == set(seen) and
+                      all(b[l] == (1.0 if l == lab else 0.0) for l in seen), detail=f"labels {labels}")
     w2 = RiverWrapper(model)
     v1, v2 = env.real('v1'), env.real('v2')
     outs.extend([v1, v2])
